@@ -38,7 +38,8 @@ def SinkJustified (vr : Variant) (g : Graph) (prm : Params) (rs : RuleSet) (src 
   (∃ r ∈ sinkMatching vr g rs sink, ∃ t ∈ targetsOf r, ∃ e ∈ g.inE sink, e.etype = E_USED ∧
       posHit (g.node sink).name t ((targetPos? t).getD (-1)) e = true ∧
       ∃ l, Watch g e.peer l ∧ Reach g prm src l) ∨
-  (codeSinkHit vr rs (g.node sink) = true ∧ ∃ e ∈ g.inE sink, ∃ l, Watch g e.peer l ∧ Reach g prm src l)
+  (codeSinkHit vr rs (g.node sink) = true ∧ ∃ e ∈ g.inE sink,
+      (vr.codeSinkSymOnly = true → g.kindOf e.peer = K_SYMBOL) ∧ ∃ l, Watch g e.peer l ∧ Reach g prm src l)
 
 theorem sinkTag_justified {vr : Variant} (hr : vr.resetTargetPos = true) (g : Graph) (prm : Params)
     (rs : RuleSet) (src sink : Nat)
@@ -68,8 +69,13 @@ theorem sinkTag_justified {vr : Variant} (hr : vr.resetTargetPos = true) (g : Gr
     rw [Bool.and_eq_true] at h
     refine ⟨h.1, ?_⟩
     obtain ⟨e, he, h2⟩ := List.any_eq_true.1 h.2
-    obtain ⟨l, hw, htl⟩ := symWithStatesTag_sound h2
-    exact ⟨e, he, l, hw, taggedLoc_reach hs htl⟩
+    rw [Bool.and_eq_true] at h2
+    obtain ⟨l, hw, htl⟩ := symWithStatesTag_sound h2.2
+    refine ⟨e, he, ?_, l, hw, taggedLoc_reach hs htl⟩
+    intro hso
+    have h3 := h2.1
+    rw [hso] at h3
+    simpa using h3
 
 /-- **C11 (justification).** Every flow the analysis of an entry point reports
 (1) starts at the symbol defined by a statement that matches a source rule (`srcMatch`; its decision
@@ -154,7 +160,7 @@ theorem C11_unrelated_no_flow {vr : Variant} (hr : vr.resetTargetPos = true) (g 
     ∀ f ∈ findFlows vr g prm rs sources sinks, ¬ (f.src = src ∧ f.sink = sink) := by
   rintro f hf ⟨rfl, rfl⟩
   obtain ⟨_, hj⟩ := sinkTag_justified hr g prm rs f.src f.sink (mem_findFlows.1 hf).2.2.1
-  rcases hj with ⟨r, _, t, _, e, he, _, _, l, hw, hl⟩ | ⟨_, e, he, l, hw, hl⟩
+  rcases hj with ⟨r, _, t, _, e, he, _, _, l, hw, hl⟩ | ⟨_, e, he, _, l, hw, hl⟩
   · exact h e he l hw hl
   · exact h e he l hw hl
 
@@ -277,6 +283,28 @@ theorem C11_unfixed_state_id_tagged_as_symbol :
       = [{ src := 1, sink := 4, vuln := some "v" }] ∧
     analyze current wStateId.g prm0 wStateId.rs = [] := by
   constructor <;> decide
+
+/-- the `sink_from_code` branch of `get_sink_tag_by_rules` consulted every predecessor of the sink,
+also the STATE node of a literal operand (STATE_IS_USED), whose state id it looked up in the SYMBOL
+table: `w = src(); sink(7)` was reported when the literal's state id equalled the symbol id of `w`.
+The repaired code consults SYMBOL predecessors only. -/
+theorem C11_unfixed_code_sink_state_operand :
+    analyze wCodeLit.frozen wCodeLit.g prm0 wCodeLit.rs = [{ src := 1, sink := 4, vuln := none }] ∧
+    analyze current wCodeLit.g prm0 wCodeLit.rs = [] := by
+  constructor <;> decide
+
+/-- **only symbols are consulted at the sink.** When the SYMBOL_IS_USED in-edges of the sink come from
+SYMBOL nodes (true of every SFG lian builds) a reported pair is backed by a SYMBOL predecessor of the
+sink that watches a location reachable from the source: no state id is looked up in the SYMBOL table. -/
+theorem C11_sink_consults_symbols_only {vr : Variant} (hr : vr.resetTargetPos = true)
+    (hso : vr.codeSinkSymOnly = true) (g : Graph) (prm : Params) (rs : RuleSet) (src sink : Nat)
+    (hused : ∀ e ∈ g.inE sink, e.etype = E_USED → g.kindOf e.peer = K_SYMBOL)
+    (h : (sinkTag vr g rs (propagate g prm src) sink).tag = true) :
+    ∃ e ∈ g.inE sink, g.kindOf e.peer = K_SYMBOL ∧ ∃ l, Watch g e.peer l ∧ Reach g prm src l := by
+  obtain ⟨_, hj⟩ := sinkTag_justified hr g prm rs src sink h
+  rcases hj with ⟨_, _, _, _, e, he, het, _, l, hw, hl⟩ | ⟨_, e, he, hk, l, hw, hl⟩
+  · exact ⟨e, he, hused e he het, l, hw, hl⟩
+  · exact ⟨e, he, hk hso, l, hw, hl⟩
 
 /-- since that repair the SYMBOL table only receives ids of SYMBOL nodes and of the symbols a
 propagating statement defines: every symbol-table consequence of a dequeued node names such a node. -/
